@@ -13,6 +13,19 @@ def P(src, variant, name, args=None, tiers=('quick', 'thorough'), tier_args=None
 
 
 CHECKS = {
+    'C14': {
+        'engine': 'seqx',
+        'rule': 'container operation histories vs std models; byte-copy primitives vs memcpy',
+        'parts': [
+            P('props/C14.cpp', 'asan+hook', 'seq-asan-hook', tier_args={'quick': ['--depth', '4', '--copylen', '130'], 'thorough': ['--depth', '5', '--copylen', '600']}),
+            P('props/C14.cpp', 'asan', 'seq-asan', tier_args={'quick': ['--depth', '4', '--copylen', '130'], 'thorough': ['--depth', '5', '--copylen', '600']}),
+            P('props/C14.cpp', 'fast', 'seq-fast-sse2', tier_args={'quick': ['--depth', '5'], 'thorough': ['--depth', '6']}),
+            P('props/C14.cpp', 'fast+avx2', 'copy-avx2', args=['--only', 'copy']),
+            P('props/C14.cpp', 'fast+nosimd', 'copy-scalar', args=['--only', 'copy']),
+            P('props/C14.cpp', 'asan+avx2', 'copy-asan-avx2', args=['--only', 'copy'], tier_args={'quick': ['--copylen', '130'], 'thorough': ['--copylen', '600']}),
+        ],
+        'floor': {'quick': 1000, 'thorough': 1000},
+    },
     'C19': {
         'engine': 'seqx',
         'rule': 'BigInt state exploration vs schoolbook reference',
